@@ -31,7 +31,7 @@ CHUNK = {'quick': 64, 'thorough': 64}
 
 VARIANTS = [
     ('int', 'ab', False), ('rev', 'rev', False), ('str', 'ab', True), ('mix', 'mix', False),
-    ('tup', 'rev', True), ('fd', 'fd', False),
+    ('tup', 'rev', True), ('fd', 'fd', False), ('falsy', 'falsy', False),
 ]
 UNDEF = [0, -7, float('-inf')]
 EPS_OTHER = [1e-3, 1e-5]
